@@ -140,17 +140,14 @@ def run(env: Any, case: dict[str, Any]) -> Any:
     raise ValueError(case["kind"])
 
 
-_TAGLIKE = {"tag", "tag-close", "jcomment", "var", "comment", "tag-pair", "quote-tag"}
-
-
 def key_fn(case: dict[str, Any], label: str, item: dict[str, Any], conc: dict[str, Any]) -> str:
-    sk = DOCS.special_key(case)
-    # two mechanisms are independent of *which* marker/tag is involved; their keys name the class
-    if label == "history:escape" and case.get("fam") == "para" and case["special"] in dict(DOCS.HAZ) and sk.endswith("@inner]"):
-        sk = "para[<block-start-word>@inner]"
-    if label == "history:rebreak" and case["special"] in _TAGLIKE:
-        sk = f"{case['fam']}[<tag-or-comment>]"
-    return f"{sk}/{label}"
+    cls = DOCS.finding_class(case)
+    # line-start escapes introduced at one width persist at another, whichever marker is involved
+    if label == "history:escape" and case.get("fam") == "para" and (case["special"] in dict(DOCS.HAZ) or case["special"] == "esc-period") and DOCS.special_key(case).endswith("@inner]"):
+        cls = "escape-persists"
+    if cls == "first-word-alone":
+        label = label.split(":")[0]
+    return f"{cls}/{label}"
 
 
 def what_fn(case: dict[str, Any], label: str, item: dict[str, Any], conc: dict[str, Any]) -> str:
